@@ -192,6 +192,8 @@ def tc_crc_coincidences(rng, targets=CRC_TARGETS, lens=(0, 1, 2, 3, 7, 40), fixe
     out = []
     for n in lens:
         for p in boundaries(11, 11 + n):
+            if n >= 200 and p <= 11:
+                continue                 # header boundaries are covered by the short packets
             for t in targets:
                 for _ in range(200):
                     a = rand_tc_args(rng, 1)
@@ -214,6 +216,8 @@ def tm_crc_coincidences(rng, targets=CRC_TARGETS, lens=(0, 1, 2, 3, 7, 40), stam
     for tl in stamps:
         for n in lens:
             for p in boundaries(13 + tl, 13 + tl + n):
+                if n >= 200 and p <= 13 + tl:
+                    continue             # header boundaries are covered by the short packets
                 for t in targets:
                     for _ in range(200):
                         a = rand_tm_args(rng, 1, tl)
